@@ -52,9 +52,15 @@ func (p *parker) install() {
 		k := fmt.Sprintf("%s:%d", point, hx.IdOf(id))
 		p.mu.Lock()
 		c := p.parkAt[k]
+		if c != nil {
+			delete(p.parkAt, k) // the first goroutine that arrives is parked, later ones pass
+		}
 		p.mu.Unlock()
 		if c != nil {
-			p.at <- k
+			select {
+			case p.at <- k:
+			default: // nobody is waiting for this token any more (the point was released and is passed again)
+			}
 			<-c
 		}
 	}
@@ -202,7 +208,254 @@ func forced(out string) {
 			return []string{<-r1, "search:" + hx.J(sr.Res) + sr.Err, fmt.Sprint("parked=", ok)}
 		})
 	}
+	// (5) two writers: Remove(entry point) has taken the vertex out of the map and is parked before it hands the entry
+	// point over.  Meanwhile the id is inserted again (elsewhere) and removed again - both calls succeed, so the first
+	// removal has taken effect before them - and THEN a search runs: the first incarnation was not live at any instant
+	// of that search, whatever the linearization
+	{
+		idx := newIndex()
+		ins(idx, 1, 1)()
+		ins(idx, 2, 2)()
+		ins(idx, 3, 5)()
+		p.mu.Lock()
+		p.parkAt = nil
+		p.mu.Unlock()
+		for len(p.at) > 0 {
+			<-p.at
+		}
+		c := p.arm("remove.unstored:1")
+		r1 := make(chan string, 1)
+		go func() { r1 <- safely(rem(idx, 1)) }()
+		ok := p.wait("remove.unstored:1")
+		ra := safely(ins(idx, 1, 6))
+		rb := safely(rem(idx, 1))
+		sr := hx.ProbeOne(idx, u, keys, 1, 3)
+		close(c)
+		rw := <-r1
+		ops := map[string][][]interface{}{"1": {{1, 2, "insert", "ok", 1}, {10, 100, "remove", rw, 0}, {20, 21, "insert", ra, 6}, {30, 31, "remove", rb, 0}},
+			"2": {{3, 4, "insert", "ok", 2}}, "3": {{5, 6, "insert", "ok", 5}}}
+		rel := map[string][][]interface{}{}
+		for _, it := range sr.Res {
+			k := fmt.Sprint(it[0])
+			rel[k] = ops[k]
+		}
+		enc.Encode(event{"ev": "search", "name": "rem(ep) parked at remove.unstored || ins(same id), rem(same id); search", "s": 40, "e": 41, "q": 1, "k": 3,
+			"res": sr.Res, "err": sr.Err, "ops": rel, "writers": 2, "parked": ok})
+	}
+	enumeratePairs(enc, p)
 	index.VerifYield = nil
+}
+
+// ---------------------------------------------------------------- enumerated two-operation schedules
+//
+// One writer W is parked at each of its yield points; a second operation O runs to completion meanwhile (if it
+// blocks on something W holds, W is released and both must finish); then W resumes.  For every (setup, W, point, O)
+// the same two operations are also run one after the other, in both orders, on fresh indexes: the concurrent run's
+// outcomes must be those of one of the two orders, and an item that an exact-match search finds after BOTH orders
+// must be found after the concurrent run.  (spec/HnswConc: every interleaving of two threads cut at the yield
+// points is a state the model reaches; HnswConcTrace "pair" events.)
+
+type pairOp struct {
+	name   string
+	id, pt int
+	kind   string   // ins | rem | search | get | len
+	points []string // yield points of this operation when it is the parked writer
+}
+
+func (o pairOp) run(idx *index.Hnsw) string {
+	switch o.kind {
+	case "ins":
+		return safely(ins(idx, o.id, o.pt))
+	case "rem":
+		return safely(rem(idx, o.id))
+	case "get":
+		return safely(func() error { idx.Get(hx.Uid(o.id)); return nil })
+	case "len":
+		return safely(func() error { idx.Len(); idx.BytesSize(); return nil })
+	}
+	res := "ok"
+	for q := 1; q <= len(u.Vecs); q++ {
+		for _, k := range []int{1, 3} {
+			if sr := hx.ProbeOne(idx, u, keys, q, k); sr.Err != "" {
+				res = sr.Err
+			}
+		}
+	}
+	return res
+}
+
+// found: ids an exact-match search (query = the item's own point, k = 1..n) brings back
+func found(idx *index.Hnsw, live []hx.LiveItem) map[int]bool {
+	out := map[int]bool{}
+	for _, it := range live {
+		sr := hx.ProbeOne(idx, u, keys, it.Pt, len(live))
+		for _, r := range sr.Res {
+			if id, ok := r[0].(int); ok && id == it.Id {
+				out[it.Id] = true
+			}
+		}
+	}
+	return out
+}
+
+func enumeratePairs(enc *json.Encoder, p *parker) {
+	type setup struct {
+		name string
+		ids  [][2]int // id, point
+	}
+	setups := []setup{
+		{"empty", nil},
+		{"one", [][2]int{{1, 1}}},
+		{"two", [][2]int{{1, 1}, {2, 2}}},
+		{"three", [][2]int{{1, 1}, {2, 2}, {3, 5}}},
+		{"four", [][2]int{{1, 3}, {2, 1}, {3, 6}, {6, 2}}},
+	}
+	build := func(su setup) *index.Hnsw {
+		idx := newIndex()
+		for _, x := range su.ids {
+			ins(idx, x[0], x[1])()
+		}
+		return idx
+	}
+	writers := []pairOp{
+		{"ins(4)", 4, 4, "ins", []string{"insert.first.stored:4", "insert.stored:4", "insert.epLoaded:4", "insert.linked:4"}},
+		{"rem(1)", 1, 0, "rem", []string{"remove.unstored:1", "remove.handover:1", "remove.handedOver:1"}},
+		{"rem(2)", 2, 0, "rem", []string{"remove.unstored:2", "remove.handover:2", "remove.handedOver:2"}},
+		{"search", 0, 0, "search", []string{"search.epLoaded:-1"}},
+	}
+	others := []pairOp{
+		{"search", 0, 0, "search", nil},
+		{"ins(5)", 5, 7, "ins", nil},
+		{"ins(4)", 4, 4, "ins", nil},
+		{"rem(1)", 1, 0, "rem", nil},
+		{"rem(2)", 2, 0, "rem", nil},
+		{"rem(3)", 3, 0, "rem", nil},
+		{"get(1)", 1, 0, "get", nil},
+		{"len", 0, 0, "len", nil},
+	}
+	for _, su := range setups {
+		for _, w := range writers {
+			for _, pt := range w.points {
+				for _, o := range others {
+					// the two sequential orders, on fresh indexes
+					type seqT struct {
+						rw, ro string
+						fnd    map[int]bool
+					}
+					var seqs []seqT
+					for order := 0; order < 2; order++ {
+						idx := build(su)
+						var rw, ro string
+						if order == 0 {
+							rw = w.run(idx)
+							ro = o.run(idx)
+						} else {
+							ro = o.run(idx)
+							rw = w.run(idx)
+						}
+						st, _ := hx.Project(idx, u, keys)
+						seqs = append(seqs, seqT{rw, ro, found(idx, st.Live)})
+					}
+					// the concurrent run
+					idx := build(su)
+					p.mu.Lock()
+					p.parkAt = nil
+					p.mu.Unlock()
+					for len(p.at) > 0 {
+						<-p.at
+					}
+					c := p.arm(pt)
+					rwc := make(chan string, 1)
+					go func() { rwc <- w.run(idx) }()
+					var rw, ro string
+					parked, wdone := false, false
+					select {
+					case got := <-p.at:
+						parked = got == pt
+					case rw = <-rwc:
+						wdone = true // the writer never passes this point in this setup
+					case <-time.After(2 * time.Second):
+					}
+					roc := make(chan string, 1)
+					go func() { roc <- o.run(idx) }()
+					hung := 0
+					blocked := false
+					select {
+					case ro = <-roc:
+					case <-time.After(300 * time.Millisecond):
+						blocked = true // O waits for something the parked writer holds: allowed, as long as both finish
+					}
+					close(c)
+					p.mu.Lock()
+					p.parkAt = nil
+					p.mu.Unlock()
+					if !wdone {
+						select {
+						case rw = <-rwc:
+						case <-time.After(5 * time.Second):
+							rw, hung = "hang", 1
+						}
+					}
+					if blocked {
+						select {
+						case ro = <-roc:
+						case <-time.After(5 * time.Second):
+							ro, hung = "hang", 1
+						}
+					}
+					name := fmt.Sprintf("%s: %s parked at %s || %s", su.name, w.name, pt, o.name)
+					if !parked {
+						// the writer never reaches this point in this setup (e.g. remove.handover of a vertex that is
+						// not the entry point): the operations simply ran one after the other
+						name += " (point not reached)"
+					}
+					if hung == 1 {
+						// locks may be held for good: nothing more can be asked of this index
+						enc.Encode(event{"ev": "pair", "name": name, "panic": "", "hung": 1, "resw": rw, "reso": ro, "lost": []int{},
+							"seq": [][]string{}, "st": hx.State{Live: []hx.LiveItem{}, Ep: []int{}}, "sr": []hx.SearchRes{}, "skip": 1})
+						continue
+					}
+					q := quiesce(idx, name)
+					q["ev"] = "pair"
+					q["hung"], q["resw"], q["reso"], q["skip"] = 0, rw, ro, 0
+					pan := ""
+					for _, r := range []string{rw, ro} {
+						if len(r) > 5 && r[:5] == "panic" {
+							pan = r
+						}
+					}
+					q["panic"] = pan
+					st, _ := hx.Project(idx, u, keys)
+					fc := map[int]bool{}
+					if pan == "" {
+						fc = found(idx, st.Live)
+					}
+					lost := []int{}
+					for _, it := range st.Live {
+						if seqs[0].fnd[it.Id] && seqs[1].fnd[it.Id] && !fc[it.Id] {
+							lost = append(lost, it.Id)
+						}
+					}
+					q["lost"] = lost
+					sq := [][]string{}
+					for _, x := range seqs {
+						rwx, rox := x.rw, x.ro
+						if o.kind == "search" || o.kind == "get" || o.kind == "len" {
+							rox = ro // reads have no outcome to linearize
+						}
+						sq = append(sq, []string{rwx, rox})
+					}
+					q["seq"] = sq
+					enc.Encode(q)
+				}
+			}
+		}
+	}
+}
+
+func init() { _ = sort.Ints }
+
+func unusedForcedTail() {
 }
 
 // ---------------------------------------------------------------- stress
